@@ -59,6 +59,8 @@ inductive Node where
   | branches (xs : List (Expr × Block))
   | l (x : Last)
   | b (x : Block)
+  /-- a `repeat` body with its `until` condition (heap-relation development only) -/
+  | rep (x : Block) (c : Expr)
 
 def Expr.isLeaf : Expr → Bool
   | .nil | .true | .false | .vararg | .num _ | .str _ | .var _ => Bool.true
